@@ -5,5 +5,6 @@ Eq4  == [a \in 0..3 |-> 1]
 Uneq4 == (0 :> 3) @@ (1 :> 1) @@ (2 :> 2) @@ (3 :> 1)       \* total 7, quorum 5: crossed by different subsets
 Uneq5 == (0 :> 1) @@ (1 :> 1) @@ (2 :> 1) @@ (3 :> 2) @@ (4 :> 4) \* total 9, quorum 7
 Eq7  == [a \in 0..6 |-> 1]
+Three == (0 :> 1) @@ (1 :> 1) @@ (2 :> 2)                    \* total 4, quorum 3
 
 ====
